@@ -16,8 +16,10 @@ type FuncResult struct {
 	undecided string
 	searchNote string
 	searchInputs int    // generated inputs of the bounded stand-in search (0 = not run)
+	searchGenerated int // inputs actually generated (a search stops at the first violation)
 	searchTried  int    // ... of which satisfied the precondition
-	searchResult string // no-violation-found | violation-found
+	searchDistinct int  // ... of which were pairwise different (hash of a canonical rendering)
+	searchResult string // no-violation-found | violation-found | known-finding | search-did-not-finish
 	args      []Val
 	bind      []Val
 }
